@@ -272,7 +272,90 @@ def check_prompt_route(ctx, cls, factory, texts):
         ctx.violation(f'{cls}:prompt-received-wrong', f'{cls}: answers {texts!r}: definition received {received!r}, reference {rval!r}', case)
 
 
+def check_store_multi(ctx, items, order):
+    """one InputStore holding several inputs (same and different classes, often
+    the same text) read in a drawn order: every read must agree with the
+    reference gate for *that* input, whatever was read before (the gate has no
+    memory)"""
+    facts = make_inputs()
+    cp = configparser.ConfigParser()
+    cp.add_section('echo')
+    specs = {}
+    form = type('F', (), {'name': lambda self: 'echo'})()
+    for j, (cls, text) in enumerate(items):
+        if text is not None and '%' in text:
+            return
+        inp = facts[cls]()
+        inp._name = f'x{j}'
+        inp.__form_init__(form)
+        specs[inp.name()] = inp
+        if text is None:
+            continue          # declared, section present, but this input is not supplied
+        try:
+            cp.set('echo', f'x{j}', text)
+        except Exception:
+            return
+    store = hi.InputStore(cp, specs)
+    case = {'route': 'multi', 'items': [list(x) for x in items], 'order': list(order)}
+    ctx.case()
+    for j in order:
+        cls, text = items[j]
+        if text is None:
+            try:
+                got = store[f'echo.x{j}']
+                ctx.violation(f'{cls}:multi-absent-defaulted', f'{cls}: input x{j} of {items} is not supplied (its section is) but the store returned {got!r} instead of reporting it missing', case)
+                return
+            except hi.MissingInput:
+                continue
+            except Exception as e:
+                ctx.violation(f'{cls}:multi-absent-raises:{type(e).__name__}', f'{cls}: input x{j} of {items} is not supplied; the store raised {e!r} instead of MissingInput', case)
+                return
+        rv, rval = ref_gate(cls, text)
+        got = None
+        try:
+            got = store[f'echo.x{j}']
+            outcome = 'value'
+        except hi.InvalidInput:
+            outcome = 'invalid'
+        except Exception as e:
+            outcome = 'raises:' + type(e).__name__
+            got = e
+        if rv and (outcome != 'value' or not typed_ok(cls, got) or not same(got, rval)):
+            ctx.violation(f'{cls}:multi-valid-wrong', f'{cls}: text {text!r} (input x{j} of {items}, read order {order}) should give {rval!r}; store gave {outcome} {got!r}', case)
+            return
+        if not rv and outcome != 'invalid':
+            ctx.violation(f'{cls}:multi-invalid-not-rejected', f'{cls}: text {text!r} (input x{j} of {items}, read order {order}) is invalid; store gave {outcome} {got!r}', case)
+            return
+    if len({t for _, t in items}) < len(items) or any(t is None for _, t in items):
+        ctx.nt({'m': case['items'], 'o': case['order']})
+
+
 # ---------------------------------------------------------------------------
+def shard_multi(ctx, k, payload):
+    n, seed = payload
+    classes = sorted(make_inputs())
+    groups = [['regex_routing', 'regex_account', 'str', 'ssn'], ['enum_status', 'enum_state_empty', 'enum_owner', 'str'],
+              ['int', 'float', 'bool', 'str'], classes]
+
+    def body(data):
+        grp = data.draw(st.sampled_from(groups))
+        m = data.draw(st.integers(2, 4))
+        shared = data.draw(text_strategy())
+        items = []
+        for _ in range(m):
+            cls = data.draw(st.sampled_from(grp))
+            text = shared if data.draw(st.integers(0, 3)) else data.draw(text_strategy())
+            if data.draw(st.integers(0, 5)) == 0:
+                text = None
+            items.append((cls, text))
+        order = list(data.draw(st.permutations(list(range(m)))))
+        if data.draw(st.booleans()):
+            order = order + list(data.draw(st.permutations(list(range(m)))))     # read everything twice
+        check_store_multi(ctx, items, order)
+        ctx.count('route:multi')
+    hyp.run_data(body, n, seed)
+
+
 def shard_strings(ctx, k, payload):
     n, seed = payload
     facts = make_inputs()
@@ -357,6 +440,8 @@ def run(ctx):
     n = 20000 if quick else 2000000
     shards = 8 if quick else 16
     hyp.pmap(ctx, shard_strings, [(n // shards, ctx.seed * 1000 + k) for k in range(shards)])
+    nm = 6000 if quick else 400000
+    hyp.pmap(ctx, shard_multi, [(nm // 4, ctx.seed * 1000 + 400 + k) for k in range(4)])
     nr = 120 if quick else 3000
     hyp.pmap(ctx, shard_real, [(nr // 4, ctx.seed * 1000 + 900 + k) for k in range(4)])
 
@@ -378,6 +463,9 @@ def replay(ctx, case):
                     ctx.violation('real:nonfinite-reached-line', f'{key}={text!r}: a line received {val!r}', case)
         elif any(o == 'ok' for o, _ in reads):
             ctx.violation('real:invalid-reached-line', f'{key}={text!r}', case)
+        return
+    if route == 'multi':
+        check_store_multi(ctx, [tuple(x) for x in case['items']], case['order'])
         return
     cls = case['class']
     if route == 'class':
